@@ -409,6 +409,29 @@ func GenHistory(r *Rng, cfg GenCfg) []Op {
 				}
 			}
 		case x < 94:
+			if cfg.Revert && cfg.FileBacked && r.Chance(1, 3) {
+				// Flush, FlushRevert, the reverted mutations done again (the same bytes land on the same offsets),
+				// Flush, re-open: the redone Flush must be durable like any other
+				j := len(ops) - 1
+				for j >= 0 && ops[j].K != "flush" && ops[j].K != "reopen" && ops[j].K != "revert" {
+					j--
+				}
+				var redo []Op
+				for _, o := range ops[j+1:] {
+					if o.K == "set" || o.K == "del" {
+						redo = append(redo, o)
+					}
+				}
+				if len(redo) > 0 && len(redo) <= 6 {
+					ops = append(ops, Op{K: "flush"}, Op{K: "revert"})
+					ops = append(ops, redo...)
+					ops = append(ops, Op{K: "flush"}, Op{K: "reopen"}, Op{K: "names"})
+					for _, nm := range g.names {
+						g.colls[nm] = true
+					}
+					break
+				}
+			}
 			if cfg.Revert && cfg.FileBacked {
 				ops = append(ops, Op{K: "revert"})
 				// after a revert the handles are re-fetched by name; collections may be gone
